@@ -85,7 +85,17 @@ func c11exec(j run.Job, a *run.Acc) {
 			a.Count("file sets made of File objects that were in another set before", 1)
 		}
 		for i, b := range raws {
-			f := text.NewFile(nameOf(i), b)
+			// the caller's buffer is reused right after NewFile (a scratch buffer through which several sources are loaded):
+			// the file must have its own copy - line and column are computed later, lazily or not
+			mine := append([]byte{}, b...)
+			f := text.NewFile(nameOf(i), mine)
+			for q := range mine {
+				if q%2 == 0 {
+					mine[q] = '\n'
+				} else {
+					mine[q] ^= 0x5a
+				}
+			}
 			if earlierSet != nil {
 				earlierSet.AddFile(f)
 			}
@@ -259,7 +269,7 @@ func init() {
 		},
 		Exec: c11exec,
 		Finish: func(tier string, a *run.Acc, cov map[string]any) string {
-			cov["rule"] = "case = a file set of 0-6 files, one set in 90 of 15-300 files, one in 90 with a file of 300-70000 pieces (up to tens of thousands of lines, or lines thousands of columns long) (empty files, LF, lone CR, CRLF, CR CR LF, multi-byte runes, no trailing newline), built with NewFileSet(files...) or AddFile, a fifth of them from File objects that were placed in another set before. " +
+			cov["rule"] = "case = a file set of 0-6 files (each created from a caller buffer that is overwritten right after NewFile), one set in 90 of 15-300 files, one in 90 with a file of 300-70000 pieces (up to tens of thousands of lines, or lines thousands of columns long) (empty files, LF, lone CR, CRLF, CR CR LF, multi-byte runes, no trailing newline), built with NewFileSet(files...) or AddFile, a fifth of them from File objects that were placed in another set before. " +
 				"Oracle: independent layout base_0=1, base_{i+1}=base_i+len_i+1 on the independently CRLF-normalised content, line/column by counting LFs. Every global position 0..last+3 is queried " +
 				"(name:line:col expected, 'unknown' for 0 and for everything past the last file's EOF position; every EOF position belongs to its file), all renderings of distinct (file, offset) must be distinct; " +
 				"File.Pos, File.Len, File.Position are checked directly for every offset. non-trivial = at least two files; distinct = distinct file contents"
